@@ -871,6 +871,27 @@ func ByBuiltins(a, b int) int {
 	return vrt.V(%[6]d, l("abc")+int(cv(a))+id(b)+pk()+len(xs)+pinit+mb.OnesCount(uint(a+8)))
 }
 
+// a bystander that uses the API's and the runtime's NAMES for its own fields, methods and
+// local variables
+type ownNames struct {
+	Iter  int
+	Yield func(int) int
+}
+
+func (o ownNames) Current() int { return o.Iter * 2 }
+
+func (o ownNames) MoveNext() bool { return o.Iter > 0 }
+
+func ByOwnNames(a, b int) int {
+	seq := ownNames{Iter: a, Yield: func(x int) int { return x + b }}
+	co := seq.Yield(seq.Iter)
+	if seq.MoveNext() {
+		co += seq.Current()
+	}
+	const doc = "co.Iter[int] and Yield(1) in a string stay what they are"
+	return vrt.V(%[16]d, co+len(doc))
+}
+
 // "time" is mentioned in this file ONLY by the signature of a forwarding literal; its callee
 // lives in another rewritten file of the package
 func ByImportInSignature(a, b int) int {
@@ -981,7 +1002,7 @@ func ByPartialPkg(a, b int) int {
 	}
 	return vrt.V(%[13]d, r*100+int(same(wide(b)).(wide)))
 }
-`, k1, k2, k3, tag(), tag(), tag(), tag(), tag(), tag(), tag(), tag(), tag(), tag(), tag(), tag())
+`, k1, k2, k3, tag(), tag(), tag(), tag(), tag(), tag(), tag(), tag(), tag(), tag(), tag(), tag(), tag())
 	genSrc := fmt.Sprintf(`func optRows(n int) «Iter[[]int]» {
 	for i := 0; i < n; i++ {
 		«Yield»([]int{0, 0}) // an all-literal slice: a fresh one per iteration
@@ -1360,6 +1381,7 @@ func OptDelay(a, b int) (_ «Iter[int]») {
 		mk("OptPromotedNil", true, "loop_condition_promoted_method_nil_receiver"),
 		mk("OptPromotedNilClosure", true, "eta_shape_promoted_method_nil_receiver"),
 		mk("OptLookup", true, "plain_closure_in_generator_leaves_native_range_with_break_and_continue_result_type_any"),
+		mk("ByOwnNames", false, "bystander_using_api_and_runtime_names_for_its_own_fields_methods_and_locals"),
 		mk("ByImportInSignature", false, "import_mentioned_only_by_the_signature_of_a_reducible_literal"),
 		mk("OptOneLine", true, "two_range_statements_starting_on_one_source_line"),
 		mk("UseFrames", false, "yield_of_by_value_struct_and_array_parameters_written_through_fields", "yield_of_named_map_literal_with_variable_key"),
